@@ -25,16 +25,38 @@ def load_module(path, name):
 
 
 class ListLogger:
-    def __init__(self):
+    def __init__(self, stock=False):
         self.items = []        # (frame number or None, CallTrace)
         self.current = None
         self.flushes = 0
+        # optionally every trace also goes through the stock CallTraceStoreLogger into a store that keeps what it is handed:
+        # what that store holds at the end is then what counts as "logged" (see stored_items)
+        self.stock = None
+        self.stored = []
+        if stock:
+            from monkeytype.db.base import CallTraceStoreLogger
+
+            class _KeepStore:
+                def add(_s, traces):
+                    self.stored.extend(list(traces))
+            self.stock = CallTraceStoreLogger(_KeepStore())
 
     def log(self, trace):
         self.items.append((self.current, trace))
+        if self.stock is not None:
+            self.stock.log(trace)
 
     def flush(self):
         self.flushes += 1
+        if self.stock is not None:
+            self.stock.flush()
+
+    def stored_items(self):
+        """(frame number, trace) for every trace the store received; a trace this session never logged has frame None"""
+        if self.stock is None:
+            return self.items
+        frame_of = {id(t): f for f, t in self.items}
+        return [(frame_of.get(id(t)), t) for t in self.stored]
 
 
 KIND = {0: "KPlain"}
@@ -231,10 +253,12 @@ def run_one(workdir, idx, rnd, mode, ct):
         d = rng.randrange(n)
         draws.append(d)
         return d
+    stock_logger = rnd.random() < 0.3        # also through the stock store logger, every session of this program
+
     def session(order):
         """one tracing session: a fresh CallTracer and recorder around the workload of the given modules"""
         del draws[:]
-        logger = ListLogger()
+        logger = ListLogger(stock=stock_logger)
         filt = admit if use_filter else (lambda code: code.co_filename in pathset)
         old = sys.getprofile()
         # through the public entry point: trace_calls installs its CallTracer, the recorder is put in front of it for the
@@ -266,12 +290,16 @@ def run_one(workdir, idx, rnd, mode, ct):
                     done.acquire()
                     terr = []
 
+                    hg = order[0].held_gen(order[0].V[2])      # started here, in this thread ...
+                    next(hg)
+
                     def _bottom():
                         sys.setprofile(rec)
                         try:
                             held = order[0].make_held()
                             held(order[0].V[0])
                             held(order[0].V[1], order[0].V[2])
+                            list(hg)                               # ... and run to exhaustion in the other one
                         except BaseException as e:
                             terr.append(f"{type(e).__name__}: {e}")
                         finally:
@@ -291,11 +319,13 @@ def run_one(workdir, idx, rnd, mode, ct):
                 sys.setprofile(tracer)
                 logger.current = None
                 cm.__exit__(None, None, None)
+            else:
+                logger.flush()
             sys.setprofile(old)
         # drop references to live generators so their frames finish outside tracing (no events recorded)
         events = [e.replace("DRAW", "0") for e in rec.events]
         impl = []
-        for fnum, tr in logger.items:
+        for fnum, tr in logger.stored_items():
             impl.append(f"({common.coq_N(fnum if fnum is not None else 0)}, {trace_term(rec, tr, ct)})")
         residue = []
         for fr in tracer.traces:
@@ -342,7 +372,7 @@ def run_one(workdir, idx, rnd, mode, ct):
     stats = {"events": len(events), "frames": len(rec.frames), "logged": len(impl), "rate": rate, "k": k,
              "filter": use_filter, "rejected": sorted(f"{n}@{l}" for n, l in rejected), "crashed": crashed, "errors": rec.errors[:3],
              "twin": twin is not None, "twin_one_file_admitted": only_file is not None, "many_live": many, "gens": src.count("yield"), "awaits": src.count("await Susp"), "residue": len(residue),
-             "bottom_frame_closure": "def make_held" in src}
+             "bottom_frame_closure": "def make_held" in src, "stock_logger": stock_logger}
     first = {"term": term, "stats": stats, "src": src if (idx < 2 or os.environ.get("VERIF_DEBUG")) else None, "prog": name}
     return [first] + ([second] if second is not None else [])
 
